@@ -35,7 +35,11 @@ class Case:
         return max(self.maxdir, CLAMP) if self.mode == "inline" else self.maxdir
 
     def header(self):
-        return "case %s mode=%s roots=%d maxdir=%d" % (self.cid, self.mode, self.roots, self.maxdir)
+        # how the root paths are spelled in the configuration: canonical, with a trailing slash, or with a "./" component
+        # (the project's default is "./testStorage"); derived from the case id so that shrinking and replay keep it
+        import zlib
+        form = ["clean", "slash", "dot", "clean"][zlib.crc32(self.cid.encode()) % 4]
+        return "case %s mode=%s roots=%d maxdir=%d rootform=%s" % (self.cid, self.mode, self.roots, self.maxdir, form)
 
     def lines(self, ops=None):
         return [self.header()] + list(self.ops if ops is None else ops) + ["end"]
